@@ -110,10 +110,10 @@ ADDED = {
     "C07": "Also: every byte the domain admits in values and keys, watch-shaped syscall rules (and shapes one step away) over directories, files, links, dangling links, missing paths and base names of 255..4000 bytes, rules larger than 8970 bytes.",
     "C13": "Also: a sweep of every field x list x every concatenation of up to 2 (thorough: 3) value pieces, the 60..70 field sweep in every mix of -F/-C/keys, access types 0..7.",
     "C14": "Also: clean single-family lines with tricky but valid values (more than half of the cases are accepted lines), Go's boolean flag syntax for -D, newlines inside arguments, lines that end inside an escape or a quote.",
-    "C08": "Also: a real-transport stage (the library's own NetlinkClient against rtnetlink in a private network namespace: every command as the first one of a fresh client must report the kernel's EOPNOTSUPP although 0..3 unsolicited sequence-0 kernel messages are queued first).",
-    "C16": "Also: repeated GetStatus with earlier results held, the status reply queued before the ACK, runs of 3..1025 setters without waiting.",
-    "C17": "Also: WaitForPendingACKs after Close, calls on the closed client followed by Close, closing the socket itself failing (EINTR, EIO, EBADF).",
-    "C18": "Also: a client whose read buffer the kernel's reply fills exactly, kernel multicast notifications caused by another socket (private network namespace; byte-identical to what a raw socket in the same group read), plausible headers with inconsistent length words for the audit message parser.",
+    "C08": "Also: a real-transport stage (the library's own NetlinkClient against rtnetlink in a private network namespace: every command as the first one of a fresh client must report the kernel's EOPNOTSUPP although 0..3 unsolicited sequence-0 kernel messages are queued first); batches of NoWait setters drained by WaitForPendingACKs before an operation; up to 60 unsolicited records before a reply.",
+    "C16": "Also: repeated GetStatus with earlier results held, the status reply queued before the ACK, runs of 3..1025 setters without waiting, every setter after a GetStatus on the same client, and a sweep of every field over small and boundary values.",
+    "C17": "Also: WaitForPendingACKs after Close, calls on the closed client followed by Close, closing the socket itself failing (EINTR, EIO, EBADF), answers of another type than NLMSG_ERROR, runs of 33..300 unacknowledged requests, 9..25 unsolicited records before an ACK.",
+    "C18": "Also: a client whose read buffer the kernel's reply fills exactly, kernel multicast notifications caused by another socket (private network namespace; byte-identical to what a raw socket in the same group read), plausible headers with inconsistent length words for the audit message parser, a sequence field prefilled by the caller, and the client NewAuditClient returns reading replies up to the documented maximum from the kernel's audit socket (requests of an unknown type only).",
     "C09": "Also: undecodable and unknown-family socket addresses, up to 1025 EXECVE arguments and 13 PATH records, realistic small numbers (items = number of PATH records), keys named like the SYSCALL record's own in other records, repeated keys, syscalls from the whole normalisation table, related / unrelated groups coalesced before and after.",
     "C15": "Also: repeated keys, records that fail enrichment, every concurrent round under a hang watchdog.",
     "C20": "Also: alias numbers from errno.h, both operand orders of every comparison, architecture names through Build, and for every entry of every record type a record carrying exactly that entry's has_fields must come out with that entry's action.",
